@@ -6,9 +6,9 @@ package mesh
 // protocol sender, without the sender goroutine, so that a harness decides when delivery happens.
 type VerifSender struct {
 	lastSrc PeerName
-	s    *gossipSender
-	Sent [][]byte
-	stop chan struct{}
+	s       *gossipSender
+	Sent    [][]byte
+	stop    chan struct{}
 }
 
 type verifRecorder struct{ v *VerifSender }
@@ -22,14 +22,14 @@ func (r verifRecorder) SendProtocolMsg(m protocolMsg) error {
 func NewVerifSender() *VerifSender {
 	v := &VerifSender{stop: make(chan struct{})}
 	v.s = &gossipSender{
-		makeMsg:          func(msg []byte) protocolMsg { return protocolMsg{ProtocolGossip, msg} },
+		makeMsg: func(msg []byte) protocolMsg { return protocolMsg{ProtocolGossip, msg} },
 		makeBroadcastMsg: func(srcName PeerName, msg []byte) protocolMsg {
 			v.lastSrc = srcName
 			return protocolMsg{ProtocolGossipBroadcast, msg}
 		},
-		sender:           verifRecorder{v},
-		broadcasts:       make(map[PeerName]GossipData),
-		more:             make(chan struct{}, 1),
+		sender:     verifRecorder{v},
+		broadcasts: make(map[PeerName]GossipData),
+		more:       make(chan struct{}, 1),
 	}
 	return v
 }
